@@ -131,6 +131,7 @@ type Slot struct {
 	sawConnack bool
 	lastDiscSeen bool
 	heldAcks []*rc.Packet
+	faulted  bool // a write fault was injected on the current connection
 }
 
 type retainedEntry struct {
